@@ -44,6 +44,9 @@ type Config struct {
 	// MaxPriv is the privilege echoed in Open Session Response when the console
 	// asks for "highest" (0).
 	MaxPriv byte
+	// XRC4 makes the BMC accept the xRC4 confidentiality algorithms (2, 3) in
+	// Open Session; it cannot serve in-session traffic for them.
+	XRC4 bool
 }
 
 // Event is one received datagram, as parsed by the BMC.
@@ -367,7 +370,7 @@ func (b *BMC) open(ev *Event, p []byte) []byte {
 	if _, n := IntegFor(su.Integ); su.Integ != 0 && n == 0 {
 		return errRsp(0x05) // invalid integrity algorithm
 	}
-	if su.Conf > 1 {
+	if su.Conf > 1 && !(b.Cfg.XRC4 && su.Conf <= 3) {
 		return errRsp(0x10) // invalid confidentiality algorithm
 	}
 	if priv == 0 {
